@@ -146,14 +146,27 @@ func c02Values(c *mc.Ctx, h *rtp.Header, buf []byte, n int) {
 		}
 		seen[id] = true
 		v := h.GetExtension(id)
-		if v == nil {
-			c.Failf("ids-and-values-disagree", "Unmarshal(%s): id %d listed by GetExtensionIDs but GetExtension returns nil", hx(buf), id)
-		}
 		if len(v) == 0 {
-			continue // an empty value occupies no input byte (Go gives no address for it either)
+			// an empty value occupies no input byte (Go gives no address for it either; nil and
+			// empty are not distinguished: presence is what GetExtensionIDs says)
+			continue
 		}
 		off := offsetIn(buf, v)
-		if off < last || off+len(v) > n {
+		if off < 0 || off+len(v) > len(buf) {
+			// not a view of the input but an owned copy: "exactly the corresponding input bytes"
+			// then means equal to the input bytes at some place in the extension block behind
+			// the previous value
+			off = -1
+			for o := last; o+len(v) <= n; o++ {
+				if bytes.Equal(buf[o:o+len(v)], v) {
+					off = o
+					break
+				}
+			}
+			if off < 0 {
+				c.Failf("value-not-input-bytes", "Unmarshal(%s): value %s of id %d does not occur in the input inside the extension block [%d,%d) behind the previous value (from %d)", hx(buf), hx(v), id, lo, n, last)
+			}
+		} else if off < last || off+len(v) > n {
 			c.Failf("value-not-input-bytes", "Unmarshal(%s): value of id %d is not a sub-slice of the input inside the extension block [%d,%d) after the previous value: offset %d length %d", hx(buf), id, lo, n, off, len(v))
 		}
 		last = off + len(v)
